@@ -140,6 +140,9 @@ def _run(ctx):
         ctx.inst("C20.R1", "fail-closed/" + k.split("::", 1)[1], not bad, "%s uses only checked / panicking arithmetic (reasoned exceptions frozen)" % name, "; ".join(bad[:4]) or "ok (%d excepted sites)" % len(sites), f.loc(f.raw["span"]))
     ctx.floor("C20.R1", 30)
     stale_exc = sorted(set(EXCEPT) - seen_exc)
+    kinds_seen = {k_[1] for k_ in seen_exc}
+    ctx.inst("C20.R1", "lint-liveness", kinds_seen >= {"shift", "cast", "fixed-op"},
+             "positive control: the lint recognises today's reasoned shift, cast and fixed-point-operator sites (it is not blind to any of the kinds it forbids)", sorted(kinds_seen), None)
     ctx.inst("C20.R1", "exceptions-live", True, "every frozen exception still matches a site (no vacuous exception)", stale_exc, None)
     # key designated functions must exist
     for crate, nm in (("marginfi_type_crate", "adjust_i64"), ("marginfi_type_crate", "adjust_u64"), ("marginfi_type_crate", "adjust_i128"), ("marginfi_type_crate", "collateral_to_liquidity_from_scaled"),
